@@ -10,6 +10,7 @@ import (
 	"fmt"
 	"os"
 	"strings"
+	"time"
 )
 
 // Hex renders bytes the way the Lean driver does ("-" for empty).
@@ -77,7 +78,11 @@ func Run(step func(words []string, line string) string) {
 			line = line[:i]
 		}
 		words := strings.Fields(line)
+		t0 := time.Now()
 		obs := step(words, line)
+		if d := time.Since(t0); d > time.Second && os.Getenv("VERIF_TIMING") != "" {
+			fmt.Fprintf(os.Stderr, "SLOW %v %s\n", d, line)
+		}
 		// step may rewrite the op line (enrichment) by returning "LINE\x00OBS"
 		if i := strings.IndexByte(obs, 0); i >= 0 {
 			line, obs = obs[:i], obs[i+1:]
